@@ -3,7 +3,7 @@ import json
 from lib import vlib
 
 RULE = ("TLC explores the recovery decision of the small-limit VM model for every (failure kind, stack height, frame index, handler "
-        "position) and checks RecoverySafe / Total; the exported case matrix - 12 failure kinds (remainder / division by zero, negative "
+        "position) and checks RecoverySafe / Total; the exported case matrix - 18 failure kinds (one expression wider than the value stack, for-in over a non-iterable, index / selector assignment, spread of a non-array, builtin type error, remainder / division by zero, negative "
         "shift, index, slice, call of a non-callable, wrong argument count, Go panic and Go runtime error in a host function, throw, "
         "unbounded recursion, value-stack exhaustion) x 10 contexts (plain, try-catch, try-finally, catch-rethrow, Invoker callback, try inside a pooled / unpooled callback, a function the host invokes after Run through a pooled / unpooled Invoker, "
         "callback inside try) x 3 depths (shallow, within 1..6 frames of the 1024-frame limit, within a frame of the 2048-slot stack) - "
